@@ -40,6 +40,9 @@ package edwards25519
 // bounded: proved for up to 4 points (every call site in the package passes 1 or 2, the multi-scalar
 // routines are themselves claimed for up to 3 terms); for longer slices the contract is assumed
 //@ func checkInitialized(points)
+//@   declassify branch 2 the is-zero-value test of a Point input: uninitialised inputs are rejected loudly (exempt)
+//@   declassify branch 3 the is-zero-value test of a Point input (exempt)
+//@   leak none
 //@   mode ring
 //@   entrysplit len(points) in 0..5
 //@   requires [bounded] len(points) < 5
@@ -49,6 +52,7 @@ package edwards25519
 // ---------------------------------------------------------------- constructors, copies
 
 //@ func (*projP2).Zero(v)
+//@   leak none
 //@   gensures result == v && pt(v) == gid() && gvalid(v)
 //@   mode ring
 //@   assigns *v
@@ -56,6 +60,7 @@ package edwards25519
 //@   ensures [value] iszero(v.X) && isone(v.Y) && isone(v.Z)
 
 //@ func (*projCached).Zero(v)
+//@   leak none
 //@   gensures result == v && pt(v) == gid() && gvalid(v)
 //@   mode ring
 //@   assigns *v
@@ -63,6 +68,7 @@ package edwards25519
 //@   ensures [value] isone(v.YplusX) && isone(v.YminusX) && isone(v.Z) && iszero(v.T2d)
 
 //@ func (*affineCached).Zero(v)
+//@   leak none
 //@   gensures result == v && pt(v) == gid() && gvalid(v)
 //@   mode ring
 //@   assigns *v
@@ -70,6 +76,7 @@ package edwards25519
 //@   ensures [value] isone(v.YplusX) && isone(v.YminusX) && iszero(v.T2d)
 
 //@ func (*Point).Set(v, u)
+//@   leak none
 //@   gensures result == v && samepoint(v, u)
 //@   mode ring
 //@   assigns *v
@@ -77,6 +84,7 @@ package edwards25519
 //@   ensures [copy] samepoint(v, u)
 
 //@ func NewIdentityPoint()
+//@   leak none
 //@   gensures fresh(result) && samepoint(result, identity)
 //@   mode ring
 //@   assigns nothing
@@ -84,6 +92,7 @@ package edwards25519
 //@   ensures [copy] samepoint(result, identity)
 
 //@ func NewGeneratorPoint()
+//@   leak none
 //@   gensures fresh(result) && samepoint(result, generator)
 //@   mode ring
 //@   assigns nothing
@@ -99,6 +108,7 @@ package edwards25519
 // ---------------------------------------------------------------- conversions (definition contracts)
 
 //@ func (*projP2).FromP1xP1(v, p)
+//@   leak none
 //@   grequires gvalid(p)
 //@   gensures result == v && pt(v) == pt(p) && gvalid(v)
 //@   mode ring
@@ -112,6 +122,7 @@ package edwards25519
 //@   ensures [valid] validP1(p) ==> validP2(v)
 
 //@ func (*projP2).FromP3(v, p)
+//@   leak none
 //@   grequires gvalid(p)
 //@   gensures result == v && pt(v) == pt(p) && gvalid(v)
 //@   mode ring
@@ -121,6 +132,7 @@ package edwards25519
 //@   ensures [valid] validc(p) ==> validP2(v)
 
 //@ func (*Point).fromP1xP1(v, p)
+//@   leak none
 //@   grequires gvalid(p)
 //@   gensures result == v && pt(v) == pt(p) && gvalid(v)
 //@   mode ring
@@ -135,6 +147,7 @@ package edwards25519
 //@   ensures [valid] validP1(p) ==> validc(v)
 
 //@ func (*Point).fromP2(v, p)
+//@   leak none
 //@   grequires gvalid(p)
 //@   gensures result == v && pt(v) == pt(p) && gvalid(v)
 //@   mode ring
@@ -149,6 +162,7 @@ package edwards25519
 //@   ensures [valid] validP2(p) ==> validc(v)
 
 //@ func (*projCached).FromP3(v, p)
+//@   leak none
 //@   grequires gvalid(p)
 //@   gensures result == v && pt(v) == pt(p) && gvalid(v)
 //@   mode ring
@@ -162,6 +176,7 @@ package edwards25519
 //@   ensures [T2d] cong(lv(v.T2d), 2 * lv(d) * lv(p.t), P)
 
 //@ func (*affineCached).FromP3(v, p)
+//@   leak none
 //@   grequires gvalid(p)
 //@   gensures result == v && pt(v) == pt(p) && gvalid(v)
 //@   mode ring
@@ -176,6 +191,7 @@ package edwards25519
 // ---------------------------------------------------------------- addition / doubling in P1xP1 (definition contracts)
 
 //@ func (*projP1xP1).Add(v, p, q)
+//@   leak none
 //@   grequires gvalid(p) && gvalid(q)
 //@   gensures result == v && pt(v) == gadd(pt(p), pt(q)) && gvalid(v)
 //@   mode ring
@@ -189,6 +205,7 @@ package edwards25519
 //@   ensures [T] cong(lv(v.T), 2 * lv(p.z) * lv(q.Z) - lv(p.t) * lv(q.T2d), P)
 
 //@ func (*projP1xP1).Sub(v, p, q)
+//@   leak none
 //@   grequires gvalid(p) && gvalid(q)
 //@   gensures result == v && pt(v) == gadd(pt(p), gneg(pt(q))) && gvalid(v)
 //@   mode ring
@@ -202,6 +219,7 @@ package edwards25519
 //@   ensures [T] cong(lv(v.T), 2 * lv(p.z) * lv(q.Z) + lv(p.t) * lv(q.T2d), P)
 
 //@ func (*projP1xP1).AddAffine(v, p, q)
+//@   leak none
 //@   grequires gvalid(p) && gvalid(q)
 //@   gensures result == v && pt(v) == gadd(pt(p), pt(q)) && gvalid(v)
 //@   mode ring
@@ -215,6 +233,7 @@ package edwards25519
 //@   ensures [T] cong(lv(v.T), 2 * lv(p.z) - lv(p.t) * lv(q.T2d), P)
 
 //@ func (*projP1xP1).SubAffine(v, p, q)
+//@   leak none
 //@   grequires gvalid(p) && gvalid(q)
 //@   gensures result == v && pt(v) == gadd(pt(p), gneg(pt(q))) && gvalid(v)
 //@   mode ring
@@ -231,6 +250,7 @@ package edwards25519
 //@ define m4dbl(p) = validP2(p) ==> (!cong(lv(p.Z)*lv(p.Z)*lv(p.Z)*lv(p.Z) + lv(d)*lv(p.X)*lv(p.X)*lv(p.Y)*lv(p.Y), 0, P) && !cong(lv(p.Z)*lv(p.Z)*lv(p.Z)*lv(p.Z) - lv(d)*lv(p.X)*lv(p.X)*lv(p.Y)*lv(p.Y), 0, P))
 
 //@ func (*projP1xP1).Double(v, p)
+//@   leak none
 //@   grequires gvalid(p)
 //@   gensures result == v && pt(v) == gadd(pt(p), pt(p)) && gvalid(v)
 //@   mode ring
@@ -263,6 +283,7 @@ package edwards25519
 //@ define slawy(v, p, q) = cong(lv(v.y) * den1(p, q), lv(v.z) * (lv(p.y) * lv(q.y) - lv(p.x) * lv(q.x)), P)
 
 //@ func (*Point).Add(v, p, q)
+//@   leak none
 //@   grequires wf(p) && wf(q)
 //@   gensures result == v && pt(v) == gadd(pt(p), pt(q)) && gvalid(v)
 //@   mode ring
@@ -281,6 +302,7 @@ package edwards25519
 //@   ensures [lawy] lawy(v, p, q)
 
 //@ func (*Point).Subtract(v, p, q)
+//@   leak none
 //@   grequires wf(p) && wf(q)
 //@   gensures result == v && pt(v) == gadd(pt(p), gneg(pt(q))) && gvalid(v)
 //@   mode ring
@@ -299,6 +321,7 @@ package edwards25519
 //@   ensures [lawy] slawy(v, p, q)
 
 //@ func (*Point).Negate(v, p)
+//@   leak none
 //@   grequires wf(p)
 //@   gensures result == v && pt(v) == gneg(pt(p)) && gvalid(v)
 //@   mode ring
@@ -318,6 +341,7 @@ package edwards25519
 //@   ensures [t] cong(lv(v.t), 0 - lv(p.t), P)
 
 //@ func (*Point).Equal(v, u)
+//@   leak none
 //@   mode ring
 //@   requires [wf] wf(v) && wf(u)
 //@   panics !init(v) || !init(u)
@@ -328,6 +352,7 @@ package edwards25519
 // ---------------------------------------------------------------- constant-time selection helpers
 
 //@ func (*projCached).Select(v, a, b, cond)
+//@   leak none
 //@   grequires (cond == 0 || cond == 1) && gvalid(a) && gvalid(b)
 //@   gensures result == v && pt(v) == gsel(cond == 1, pt(a), pt(b)) && gvalid(v)
 //@   mode ring
@@ -339,6 +364,7 @@ package edwards25519
 //@   ensures [zero] cond == 0 ==> eqlimbs(v.YplusX, b.YplusX) && eqlimbs(v.YminusX, b.YminusX) && eqlimbs(v.Z, b.Z) && eqlimbs(v.T2d, b.T2d)
 
 //@ func (*affineCached).Select(v, a, b, cond)
+//@   leak none
 //@   grequires (cond == 0 || cond == 1) && gvalid(a) && gvalid(b)
 //@   gensures result == v && pt(v) == gsel(cond == 1, pt(a), pt(b)) && gvalid(v)
 //@   mode ring
@@ -350,6 +376,7 @@ package edwards25519
 //@   ensures [zero] cond == 0 ==> eqlimbs(v.YplusX, b.YplusX) && eqlimbs(v.YminusX, b.YminusX) && eqlimbs(v.T2d, b.T2d)
 
 //@ func (*projCached).CondNeg(v, cond)
+//@   leak none
 //@   grequires (cond == 0 || cond == 1) && gvalid(v)
 //@   gensures result == v && pt(v) == smul(1 - 2 * cond, pt(old(v))) && gvalid(v)
 //@   mode ring
@@ -364,6 +391,7 @@ package edwards25519
 //@   ensures [Z] eqlimbs(v.Z, old(v).Z)
 
 //@ func (*affineCached).CondNeg(v, cond)
+//@   leak none
 //@   grequires (cond == 0 || cond == 1) && gvalid(v)
 //@   gensures result == v && pt(v) == smul(1 - 2 * cond, pt(old(v))) && gvalid(v)
 //@   mode ring
@@ -379,6 +407,7 @@ package edwards25519
 // ---------------------------------------------------------------- encoding (property C05, C04)
 
 //@ func copyFieldElement(buf, v)
+//@   leak none
 //@   mode ring
 //@   requires [inv] inv(v)
 //@   assigns *buf
@@ -390,6 +419,7 @@ package edwards25519
 //@ define affy(p) = (lv(p.y) * finv(lv(p.z))) % P
 
 //@ func (*Point).bytes(v, buf)
+//@   leak none
 //@   mode ring
 //@   requires [wf] wf(v)
 //@   panics !init(v)
@@ -398,6 +428,7 @@ package edwards25519
 //@   ensures [value] le(buf, 32) == affy(v) + 2^255 * (affx(v) % 2)
 
 //@ func (*Point).Bytes(v)
+//@   leak none
 //@   mode ring
 //@   requires [wf] wf(v)
 //@   panics !init(v)
@@ -412,12 +443,17 @@ package edwards25519
 //@ define txyeq(X, Y, Z, T) = cong(lv(X)*lv(Y), lv(Z)*lv(T), P)
 
 //@ func isOnCurve(X, Y, Z, T)
+//@   declassify branch 1 validity decision of the SetExtendedCoordinates decoder (exempt)
+//@   declassify branch 2 validity decision of the SetExtendedCoordinates decoder (exempt)
+//@   leak none
 //@   mode ring
 //@   requires [inv] inv(X) && inv(Y) && inv(Z) && inv(T)
 //@   assigns nothing
 //@   ensures [iff] result <==> (!cong(lv(Z), 0, P) && curveeq(X, Y, Z, T) && txyeq(X, Y, Z, T))
 
 //@ func (*Point).SetExtendedCoordinates(v, X, Y, Z, T)
+//@   declassify branch 1 validity decision of the decoder (exempt)
+//@   leak none
 //@   mode ring
 //@   requires [inv] inv(X) && inv(Y) && inv(Z) && inv(T)
 //@   use validinit(v)
@@ -428,6 +464,7 @@ package edwards25519
 //@   ensures [atomic] !isnil(result1) ==> isnil(result0) && unchanged(*v)
 
 //@ func (*Point).extendedCoordinates(v, e)
+//@   leak none
 //@   mode ring
 //@   requires [wf] wf(v)
 //@   panics !init(v)
@@ -436,6 +473,7 @@ package edwards25519
 //@   ensures [copy] eqlimbs(e[0], v.x) && eqlimbs(e[1], v.y) && eqlimbs(e[2], v.z) && eqlimbs(e[3], v.t)
 
 //@ func (*Point).ExtendedCoordinates(v)
+//@   leak none
 //@   mode ring
 //@   requires [wf] wf(v)
 //@   panics !init(v)
@@ -449,6 +487,7 @@ package edwards25519
 //@ define montu(p) = ((1 + lv(p.y) * finv(lv(p.z))) * finv(1 - lv(p.y) * finv(lv(p.z)))) % P
 
 //@ func (*Point).bytesMontgomery(v, buf)
+//@   leak none
 //@   mode ring
 //@   requires [wf] wf(v)
 //@   panics !init(v)
@@ -457,6 +496,7 @@ package edwards25519
 //@   ensures [value] le(buf, 32) == montu(v)
 
 //@ func (*Point).BytesMontgomery(v)
+//@   leak none
 //@   mode ring
 //@   requires [wf] wf(v)
 //@   panics !init(v)
@@ -468,6 +508,7 @@ package edwards25519
 // ---------------------------------------------------------------- cofactor multiplication (validity; the value 8*P is tier G)
 
 //@ func (*Point).MultByCofactor(v, p)
+//@   leak none
 //@   mode ring
 //@   requires [wf] wf(p)
 //@   use validinit(v)
@@ -481,6 +522,9 @@ package edwards25519
 // ---------------------------------------------------------------- decoding (property C04)
 
 //@ func (*Point).SetBytes(v, x)
+//@   declassify branch 1 length test (the error of Element.SetBytes depends on len(x) only)
+//@   declassify branch 2 validity decision of the decoder: wasSquare == 0 (exempt)
+//@   leak none
 //@   mode ring
 //@   casesplit len(x) == 32
 //@   use validinit(v)
@@ -505,6 +549,7 @@ package edwards25519
 //@ define ev4(w) = w[0] + w[1]*2^64 + w[2]*2^128 + w[3]*2^192
 
 //@ func fiatScalarCmovznzU64(out1, arg1, arg2, arg3)
+//@   leak none
 //@   mode bv
 //@   requires [bit] arg1 == 0 || arg1 == 1
 //@   assigns *out1
@@ -512,6 +557,7 @@ package edwards25519
 //@   ensures [one] arg1 == 1 ==> *out1 == arg3
 
 //@ func fiatScalarAdd(out1, arg1, arg2)
+//@   leak none
 //@   mode lia
 //@   requires [reduced] ev4(arg1) < L && ev4(arg2) < L
 //@   assigns *out1
@@ -519,6 +565,7 @@ package edwards25519
 //@   ensures [value] ev4(out1) == (ev4(arg1) + ev4(arg2)) % L
 
 //@ func fiatScalarSub(out1, arg1, arg2)
+//@   leak none
 //@   mode lia
 //@   requires [reduced] ev4(arg1) < L && ev4(arg2) < L
 //@   assigns *out1
@@ -527,6 +574,7 @@ package edwards25519
 //@   ensures [zero] ev4(out1) == 0 <==> ev4(arg1) == ev4(arg2)
 
 //@ func fiatScalarOpp(out1, arg1)
+//@   leak none
 //@   mode lia
 //@   requires [reduced] ev4(arg1) < L
 //@   assigns *out1
@@ -534,6 +582,7 @@ package edwards25519
 //@   ensures [value] ev4(out1) == (0 - ev4(arg1)) % L
 
 //@ func fiatScalarNonzero(out1, arg1)
+//@   leak none
 //@   mode bv
 //@   assigns *out1
 //@   ensures [iff] *out1 == 0 <==> ev4(arg1) == 0
@@ -541,6 +590,7 @@ package edwards25519
 // Montgomery multiplication: the value T before the final conditional subtraction satisfies the exact equation
 // T*R = a*b + q*L with the ghost quotient q assembled from the four reduction multipliers (locals x20, x66, x113, x160).
 //@ func fiatScalarMul(out1, arg1, arg2)
+//@   leak none
 //@   mode lia
 //@   opt chainposts
 //@   requires [reduced] ev4(arg1) < L && ev4(arg2) < L
@@ -557,6 +607,7 @@ package edwards25519
 //@ const C2 = (RR * RINV - R) / L
 
 //@ func fiatScalarFromMontgomery(out1, arg1)
+//@   leak none
 //@   mode lia
 //@   opt chainposts
 //@   requires [reduced] ev4(arg1) < L
@@ -567,6 +618,7 @@ package edwards25519
 //@   ensures [rinv] congw(ev4(out1), ev4(arg1) * RINV, L, ((x2 + x18*2^64 + x42*2^128 + x66*2^192) - (1 - x94) * R) * RINV - ev4(out1) * C1)
 
 //@ func fiatScalarToMontgomery(out1, arg1)
+//@   leak none
 //@   mode lia
 //@   opt chainposts
 //@   requires [reduced] ev4(arg1) < L
@@ -577,11 +629,13 @@ package edwards25519
 //@   ensures [mont] congw(ev4(out1), ev4(arg1) * R, L, ev4(arg1) * C2 + ((x19 + x59*2^64 + x99*2^128 + x139*2^192) - (1 - x167) * R) * RINV - ev4(out1) * C1)
 
 //@ func fiatScalarToBytes(out1, arg1)
+//@   leak none
 //@   mode bv
 //@   assigns *out1
 //@   ensures [value] le(out1, 32) == ev4(arg1)
 
 //@ func fiatScalarFromBytes(out1, arg1)
+//@   leak none
 //@   mode bv
 //@   assigns *out1
 //@   ensures [value] ev4(out1) == le(arg1, 32)
@@ -602,18 +656,21 @@ package edwards25519
 //@ globalinv [L:minusone] forall i in 0..32: scalarMinusOneBytes[i] == ((L - 1) >> (8 * i)) % 256
 
 //@ func NewScalar()
+//@   leak none
 //@   mode lia
 //@   assigns nothing
 //@   ensures [fresh] fresh(result)
 //@   ensures [zero] ev4(result.s) == 0
 
 //@ func (*Scalar).Set(s, x)
+//@   leak none
 //@   mode lia
 //@   assigns *s
 //@   ensures [receiver] result == s
 //@   ensures [copy] s.s[0] == x.s[0] && s.s[1] == x.s[1] && s.s[2] == x.s[2] && s.s[3] == x.s[3]
 
 //@ func (*Scalar).Add(s, x, y)
+//@   leak none
 //@   mode lia
 //@   requires [reduced] sinv(x) && sinv(y)
 //@   assigns *s
@@ -622,6 +679,7 @@ package edwards25519
 //@   ensures [value] ev4(s.s) == (ev4(x.s) + ev4(y.s)) % L
 
 //@ func (*Scalar).Subtract(s, x, y)
+//@   leak none
 //@   mode lia
 //@   requires [reduced] sinv(x) && sinv(y)
 //@   assigns *s
@@ -630,6 +688,7 @@ package edwards25519
 //@   ensures [value] ev4(s.s) == (ev4(x.s) - ev4(y.s)) % L
 
 //@ func (*Scalar).Negate(s, x)
+//@   leak none
 //@   mode lia
 //@   requires [reduced] sinv(x)
 //@   assigns *s
@@ -638,6 +697,7 @@ package edwards25519
 //@   ensures [value] ev4(s.s) == (0 - ev4(x.s)) % L
 
 //@ func (*Scalar).Multiply(s, x, y)
+//@   leak none
 //@   mode lia
 //@   requires [reduced] sinv(x) && sinv(y)
 //@   assigns *s
@@ -646,6 +706,7 @@ package edwards25519
 //@   ensures [value] cong(ev4(s.s), ev4(x.s) * ev4(y.s) * RINV, L)
 
 //@ func (*Scalar).MultiplyAdd(s, x, y, z)
+//@   leak none
 //@   mode lia
 //@   requires [reduced] sinv(x) && sinv(y) && sinv(z)
 //@   assigns *s
@@ -654,6 +715,7 @@ package edwards25519
 //@   ensures [value] cong(ev4(s.s), ev4(x.s) * ev4(y.s) * RINV + ev4(z.s), L)
 
 //@ func (*Scalar).bytes(s, out)
+//@   leak none
 //@   mode lia
 //@   requires [reduced] sinv(s)
 //@   assigns *out
@@ -662,6 +724,7 @@ package edwards25519
 //@   ensures [value] cong(le(out, 32), ev4(s.s) * RINV, L)
 
 //@ func (*Scalar).Bytes(s)
+//@   leak none
 //@   mode lia
 //@   requires [reduced] sinv(s)
 //@   assigns nothing
@@ -671,6 +734,7 @@ package edwards25519
 //@   ensures [value] cong(le(result, 32), ev4(s.s) * RINV, L)
 
 //@ func (*Scalar).Equal(s, t)
+//@   leak none
 //@   mode bv
 //@   requires [reduced] sinv(s) && sinv(t)
 //@   assigns nothing
@@ -678,6 +742,7 @@ package edwards25519
 //@   ensures [iff] result == 1 <==> ev4(s.s) == ev4(t.s)
 
 //@ func (*Scalar).setShortBytes(s, x)
+//@   leak none
 //@   mode lia
 //@   requires [short] len(x) < 32
 //@   entrysplit len(x) in 0..32
@@ -687,6 +752,7 @@ package edwards25519
 //@   ensures [value] cong(ev4(s.s), le(x, len(x)) * R, L)
 
 //@ func (*Scalar).SetUniformBytes(s, x)
+//@   leak none
 //@   mode lia
 //@   casesplit len(x) == 64
 //@   assigns *s
@@ -695,11 +761,15 @@ package edwards25519
 //@   ensures [value] len(x) == 64 ==> cong(ev4(s.s), le(x, 64) * R, L)
 
 //@ func isReduced(s)
+//@   leak vartime validity decision of the SetCanonicalBytes decoder (exempt)
 //@   mode lia
 //@   assigns nothing
 //@   ensures [iff] result <==> (len(s) == 32 && le(s, 32) < L)
 
 //@ func (*Scalar).SetCanonicalBytes(s, x)
+//@   declassify branch 2 validity decision of the decoder: isReduced (exempt)
+//@   declassify call 1 isReduced is the decoder's validity decision (exempt)
+//@   leak none
 //@   mode lia
 //@   casesplit len(x) == 32
 //@   assigns *s
@@ -711,6 +781,7 @@ package edwards25519
 //@ define clamp(n) = n % 2^254 - n % 8 + 2^254
 
 //@ func (*Scalar).SetBytesWithClamping(s, x)
+//@   leak none
 //@   mode lia
 //@   casesplit len(x) == 32
 //@   assigns *s
@@ -719,6 +790,8 @@ package edwards25519
 //@   ensures [value] len(x) == 32 ==> cong(ev4(s.s), clamp(le(x, 32)) * R, L)
 
 //@ func (*Scalar).signedRadix16(s)
+//@   declassify branch 1 guards a panic that is proved unreachable (obligation signedRadix16#nopanic under C01)
+//@   leak none
 //@   mode lia
 //@   requires [reduced] sinv(s)
 //@   assigns nothing
@@ -742,24 +815,28 @@ package edwards25519
 // ---------------------------------------------------------------- lookup tables
 
 //@ func (*projLookupTable).FromP3(v, q)
+//@   leak none
 //@   mode group
 //@   requires [valid] gvalid(q)
 //@   assigns *v
 //@   ensures [table] isTable8(v, pt(q))
 
 //@ func (*affineLookupTable).FromP3(v, q)
+//@   leak none
 //@   mode group
 //@   requires [valid] gvalid(q)
 //@   assigns *v
 //@   ensures [table] isTable8(v, pt(q))
 
 //@ func (*nafLookupTable5).FromP3(v, q)
+//@   leak vartime operation named VarTime or used only by them (exempt)
 //@   mode group
 //@   requires [valid] gvalid(q)
 //@   assigns *v
 //@   ensures [table] isNaf5(v, pt(q))
 
 //@ func (*nafLookupTable8).FromP3(v, q)
+//@   leak vartime operation named VarTime or used only by them (exempt)
 //@   mode group
 //@   requires [valid] gvalid(q)
 //@   assigns *v
@@ -770,6 +847,7 @@ package edwards25519
 //@ define isNaf8self(t) = forall k in 0..64: (pt(t.points[k]) == smul(2 * k + 1, pt(t.points[0])) && gvalid(t.points[k]))
 
 //@ func (*projLookupTable).SelectInto(v, dest, x)
+//@   leak none
 //@   mode group
 //@   requires [table] isTable8self(v)
 //@   requires [range] -8 <= x && x <= 8
@@ -778,6 +856,7 @@ package edwards25519
 //@   ensures [valid] gvalid(dest)
 
 //@ func (*affineLookupTable).SelectInto(v, dest, x)
+//@   leak none
 //@   mode group
 //@   requires [table] isTable8self(v)
 //@   requires [range] -8 <= x && x <= 8
@@ -786,6 +865,7 @@ package edwards25519
 //@   ensures [valid] gvalid(dest)
 
 //@ func (*nafLookupTable5).SelectInto(v, dest, x)
+//@   leak vartime operation named VarTime or used only by them (exempt)
 //@   mode group
 //@   requires [table] isNaf5self(v)
 //@   requires [odd] 0 < x && x < 16 && x % 2 == 1
@@ -794,6 +874,7 @@ package edwards25519
 //@   ensures [valid] gvalid(dest)
 
 //@ func (*nafLookupTable8).SelectInto(v, dest, x)
+//@   leak vartime operation named VarTime or used only by them (exempt)
 //@   mode group
 //@   requires [table] isNaf8self(v)
 //@   requires [odd] 0 < x && x % 2 == 1
@@ -806,6 +887,7 @@ package edwards25519
 //@ define nval(s) = (ev4(s.s) * RINV) % L
 
 //@ func (*Point).ScalarMult(v, x, q)
+//@   leak none
 //@   mode group
 //@   requires [scalar] sinv(x)
 //@   requires [wf] wf(q)
@@ -816,28 +898,33 @@ package edwards25519
 //@   ensures [value] pt(v) == smul(nval(x), pt(q))
 
 //@ func basepointTable$1()
+//@   leak none
 //@   mode group
 //@   assigns basepointTablePrecomp.table
 //@   ensures [table] isBase(basepointTablePrecomp.table)
 
 //@ func basepointTable()
+//@   leak none
 //@   mode group
 //@   assigns basepointTablePrecomp
 //@   ensures [result] result == basepointTablePrecomp.table
 //@   ensures [table] isBase(basepointTablePrecomp.table)
 
 //@ func basepointNafTable$1()
+//@   leak vartime operation named VarTime or used only by them (exempt)
 //@   mode group
 //@   assigns basepointNafTablePrecomp.table
 //@   ensures [table] isNaf8(basepointNafTablePrecomp.table, gbase())
 
 //@ func basepointNafTable()
+//@   leak vartime operation named VarTime or used only by them (exempt)
 //@   mode group
 //@   assigns basepointNafTablePrecomp
 //@   ensures [result] result == basepointNafTablePrecomp.table
 //@   ensures [table] isNaf8(basepointNafTablePrecomp.table, gbase())
 
 //@ func (*Point).ScalarBaseMult(v, x)
+//@   leak none
 //@   mode group
 //@   requires [scalar] sinv(x)
 //@   assigns *v, basepointTablePrecomp
@@ -847,6 +934,7 @@ package edwards25519
 
 // width-w non-adjacent form: sum naf[j]*2^j is the scalar's integer, non-zero digits are odd and below 2^(w-1)
 //@ func (*Scalar).nonAdjacentForm(s, w)
+//@   leak vartime operation named VarTime or used only by them (exempt)
 //@   mode lia
 //@   trusted the recoder's loop (window arithmetic at a moving bit offset) is not yet under proof
 //@   requires [reduced] sinv(s)
@@ -857,7 +945,9 @@ package edwards25519
 //@   ensures [value] cong(sum j in 0..256: result[j] * 2^j, ev4(s.s) * RINV, L)
 
 //@ func (*Point).VarTimeDoubleScalarBaseMult(v, a, A, b)
+//@   leak vartime operation named VarTime or used only by them (exempt)
 //@   mode group
+//@   opt quickparts=distinct,v=A
 //@   requires [scalar] sinv(a) && sinv(b)
 //@   requires [wf] wf(A)
 //@   panics !init(A)
@@ -868,7 +958,7 @@ package edwards25519
 //@   loop 2 var i
 //@   loop 2 opt cut
 //@   loop 2 modifies *tmp1, *tmp2, *v, *multA, *multB
-//@   loop 2 invariant [acc] pt(tmp2) == gadd(smul(sum t in i + 1..256: aNaf[t] * 2^(t - i - 1), pt(A)), smul(sum t in i + 1..256: bNaf[t] * 2^(t - i - 1), gbase()))
+//@   loop 2 invariant [acc] pt(tmp2) == gadd(smul(sum t in i + 1..256: aNaf[t] * 2^(t - i - 1), pt(old(A))), smul(sum t in i + 1..256: bNaf[t] * 2^(t - i - 1), gbase()))
 //@   loop 2 invariant [valid] gvalid(tmp2)
 //@   ensures [receiver] result == v
 //@   ensures [valid] gvalid(v)
@@ -886,6 +976,7 @@ package edwards25519
 
 // bounded: proved for up to 3 terms (all scalars and points symbolic, distinct storage)
 //@ func (*Point).MultiScalarMult(v, scalars, points)
+//@   leak none
 //@   mode group
 //@   entrysplit len(scalars) in 0..4
 //@   entrysplit len(points) in 0..4
@@ -900,6 +991,7 @@ package edwards25519
 
 // bounded: proved for up to 2 terms
 //@ func (*Point).VarTimeMultiScalarMult(v, scalars, points)
+//@   leak vartime operation named VarTime or used only by them (exempt)
 //@   mode group
 //@   entrysplit len(scalars) in 0..3
 //@   entrysplit len(points) in 0..3
@@ -911,7 +1003,7 @@ package edwards25519
 //@   loop 3 var i
 //@   loop 3 opt cut
 //@   loop 3 modifies *tmp1, *tmp2, *v, *multiple
-//@   loop 3 invariant [acc] pt(tmp2) == (gsum j in 0..len(points): smul(sum t in i + 1..256: nafs[j][t] * 2^(t - i - 1), pt(points[j])))
+//@   loop 3 invariant [acc] pt(tmp2) == (gsum j in 0..len(points): smul(sum t in i + 1..256: nafs[j][t] * 2^(t - i - 1), pt(old(points[j]))))
 //@   loop 3 invariant [valid] gvalid(tmp2)
 //@   ensures [receiver] result == v
 //@   ensures [valid] gvalid(v)
